@@ -250,6 +250,11 @@ void EntropyDev::begin_run(uint64_t s) {
   seed = s;
   for (int t = 0; t < MAX_TASKS; t++) { counter[t] = 0; draws[t].clear(); }
 }
+void EntropyDev::note_partial(int task, const void *buf, size_t n) {
+  if (!n) return;
+  draws[task].push_back(EntropyDraw{task, cur_op(task), std::string((const char *)buf, n), buf, false});
+  last[task].buf = buf; last[task].n = n <= sizeof last[task].bytes ? n : 0; if (last[task].n) memcpy(last[task].bytes, buf, n);
+}
 void EntropyDev::begin_op(int task) { draws[task].clear(); last[task].n = 0; last[task].buf = nullptr; }
 void EntropyDev::fill(int task, void *buf, size_t n) {
   // per-task stream: what a task is handed never depends on the schedule
@@ -261,7 +266,7 @@ void EntropyDev::fill(int task, void *buf, size_t n) {
     memcpy(c + i, &w, n - i < 8 ? n - i : 8);
   }
   got.assign((const char *)buf, n);
-  draws[task].push_back(EntropyDraw{task, cur_op(task), got, buf});
+  draws[task].push_back(EntropyDraw{task, cur_op(task), got, buf, true});
   last[task].buf = buf; last[task].n = n <= sizeof last[task].bytes ? n : 0; if (last[task].n) memcpy(last[task].bytes, buf, n);
   ev(vfmt("entropy t%d op%d arc4random_buf n=%zu bytes=%s", task, cur_op(task), n, hexenc(got).c_str()));
   MemLayer::get().stats["entropy_draws"]++;
